@@ -5,16 +5,22 @@
  * crash resolution) and the state of the queue entry after the crash is summarised.
  *
  * usage: c01_queue <nrandom> <seed> <shard> <nshards>   |   c01_queue -   (cases on stdin)
- * stdin case:  <chunk> <msghex> <envhex> <faultcall> <faulterr>
+ * stdin case:  <chunk> <msghex> <envhex> <faultcall> <faulterr> [<faultcall2> <faulterr2> ...]   (up to 4 faults, ascending call numbers)
  *
  * output per case:
- *   CASE chunk=<n> msg=<hex> env=<hex> fault=<callno>:<err> received=<hex> uid=<u> pid=<p>
+ *   CASE chunk=<n> msg=<hex> env=<hex> fault=<callno>:<err>[+<callno2>:<err2>...] received=<hex> uid=<u> pid=<p>
  *   T <event> ...                      one per interposed call (see sim.c), write data in hex
  *   EXIT <code> ncalls=<n> faultfired=<0|1>
  *   S <k> <mode> <code> [mess=<len>:<hash> todo=<len>:<hash>]
  *        state after a world crash before call k (k = ncalls+1: after exit) resolved by <mode>:
  *        code = subset of letters p(pid file) m(mess) i(intd) t(todo); contents given when t present
+ *        (fault-sweep cases whose fault-free run is emitted as a case of its own report only the crash points
+ *        from the last injected fault on: earlier ones are, call for call, those of the run without that fault)
  *   END
+ *
+ * Fault space: single faults at every call index of well-formed AND of malformed / truncated inputs (so the
+ * calls made inside cleanup() - ftruncate, unlink intd, unlink mess - are faulted too), pairs of faults (every
+ * second fault after every first fault), seeded random chains of up to 3 faults on random inputs.
  */
 #define _GNU_SOURCE
 #include "sim.h"
@@ -76,16 +82,38 @@ static void summarise(long k, int mode) {
   fputc('\n', h_out);
 }
 
-static void one(const unsigned char *msg, size_t mn, const unsigned char *env, size_t en, int chunk, int fcall, int ferr) {
+typedef struct { int call, err; } flt;
+#define MAXF 4
+
+static void set_faults(const flt *f, int nf) {
+  for (int i = 0; i < nf; i++) { sim_faults[i].proc = 0; sim_faults[i].callno = f[i].call; sim_faults[i].err = f[i].err; }
+  sim_nfaults = nf;
+}
+
+/* number of calls the program makes on this input under these faults (nothing is printed) */
+static long ncalls_of(const unsigned char *msg, size_t mn, const unsigned char *env, size_t en, int chunk, const flt *f, int nf) {
+  world(msg, mn, env, en, chunk); set_faults(f, nf);
+  int save = sim_trace_on; sim_trace_on = 0; sim_run(&P[0], qq_main); sim_trace_on = save;
+  return P[0].ncalls;
+}
+
+/* long traces: every index among the first 40 and last 60 calls, every 97th in between */
+static int sampled(long k, long ncalls) { return !(ncalls > 150 && k > 40 && k < ncalls - 60 && (k % 97)); }
+
+/* one case: faults f[0..nf) (call == 0: unused slot); crash points kmin..ncalls+1 */
+static void one_f(const unsigned char *msg, size_t mn, const unsigned char *env, size_t en, int chunk, const flt *f, int nf, long kmin) {
   /* 1. the full run, traced */
   world(msg, mn, env, en, chunk);
-  if (fcall > 0) { sim_faults[0].proc = 0; sim_faults[0].callno = fcall; sim_faults[0].err = ferr; sim_nfaults = 1; }
+  set_faults(f, nf);
   sim_trace_on = 1;
   int code = sim_run(&P[0], qq_main);
   long ncalls = P[0].ncalls;
   /* received line = what the program would put first; recompute with the real formatter */
   fprintf(h_out, "CASE chunk=%d msg=", chunk); h_hex(msg, mn); fprintf(h_out, " env="); h_hex(env, en);
-  fprintf(h_out, " fault=%d:%d received=", fcall, ferr); h_hex((unsigned char *)received, receivedlen);
+  fprintf(h_out, " fault=");
+  if (nf == 0) fprintf(h_out, "0:0");
+  for (int i = 0; i < nf; i++) fprintf(h_out, "%s%d:%d", i ? "+" : "", f[i].call, f[i].err);
+  fprintf(h_out, " received="); h_hex((unsigned char *)received, receivedlen);
   fprintf(h_out, " uid=%d pid=%d\n", QUID, QPID);
   /* trace lines */
   { char *s = (char *)sim_trace.p; size_t n = sim_trace.n, i = 0;
@@ -93,12 +121,13 @@ static void one(const unsigned char *msg, size_t mn, const unsigned char *env, s
   fprintf(h_out, "EXIT %d ncalls=%ld faultfired=%d\n", code, ncalls, sim_fault_fired);
   /* 2. crash states */
   sim_trace_on = 0;
-  for (long k = 1; k <= ncalls + 1; k++) {
-    /* long traces: every crash point among the first 40 and last 60 calls, every 97th in between */
-    if (ncalls > 150 && k > 40 && k < ncalls - 60 && (k % 97)) continue;
+  if (kmin < 1) kmin = 1;
+  if (kmin > ncalls + 1) kmin = ncalls + 1;
+  for (long k = kmin; k <= ncalls + 1; k++) {
+    if (!sampled(k, ncalls)) continue;
     for (int mode = CR_KEEP; mode <= CR_HALF; mode++) {
       world(msg, mn, env, en, chunk);
-      if (fcall > 0) { sim_faults[0].proc = 0; sim_faults[0].callno = fcall; sim_faults[0].err = ferr; sim_nfaults = 1; }
+      set_faults(f, nf);
       if (k <= ncalls) sim_crash_before = k;
       sim_run(&P[0], qq_main);
       sim_apply_crash(mode);
@@ -106,6 +135,12 @@ static void one(const unsigned char *msg, size_t mn, const unsigned char *env, s
     }
   }
   fprintf(h_out, "END\n");
+}
+
+static void one(const unsigned char *msg, size_t mn, const unsigned char *env, size_t en, int chunk, int fcall, int ferr) {
+  flt f = { fcall, ferr };
+  /* (a fault "0:<err>" never fires; it is kept in the CASE line as before) */
+  one_f(msg, mn, env, en, chunk, &f, 1, 1);
 }
 
 static int unhex(const char *h, unsigned char *o) {
@@ -116,10 +151,11 @@ static int unhex(const char *h, unsigned char *o) {
 }
 
 /* ---- generators ---- */
+static int bad_letter = 'X';      /* the wrong record letter gen_env() uses */
 static size_t gen_env(unsigned char *e, int nrcpt, int badletter_at, int longaddr_at, int longlen, int cut, int noterm) {
   size_t n = 0;
   for (int r = -1; r < nrcpt; r++) {
-    e[n++] = (r == badletter_at) ? 'X' : (r < 0 ? 'F' : 'T');
+    e[n++] = (r == badletter_at) ? bad_letter : (r < 0 ? 'F' : 'T');
     int alen = (r == longaddr_at) ? longlen : (int)h_below(12);
     for (int i = 0; i < alen; i++) e[n++] = "abcxyz@.-"[h_below(9)];
     e[n++] = 0;
@@ -130,6 +166,81 @@ static size_t gen_env(unsigned char *e, int nrcpt, int badletter_at, int longadd
   return n;
 }
 
+static size_t put_addr(unsigned char *e, size_t n, int len) { for (int i = 0; i < len; i++) e[n++] = "abcxyz@.-"[h_below(9)]; return n; }
+static size_t put_rec(unsigned char *e, size_t n, int letter, int len) { e[n++] = letter; n = put_addr(e, n, len); e[n++] = 0; return n; }
+
+/* envelopes that make the program fail (or not) at each of the places where it can: the shapes of
+ * "the writer died" (EOF at every kind of position), wrong record letters drawn from the whole byte
+ * range, over-long addresses; shape 10 is well-formed (control).  Contents are seeded-random. */
+#define NSHAPES 11
+static size_t gen_abnormal(unsigned char *e, int shape, int nrcpt) {
+  size_t n = 0;
+  int wrongF; do wrongF = (int)h_below(256); while (wrongF == 'F');
+  int wrongT; do wrongT = (int)h_below(256); while (wrongT == 'T' || wrongT == 0);
+  int wrong_at = nrcpt > 0 ? (int)h_below(nrcpt) : 0;
+  if (shape == 0) return 0;                                                      /* EOF before the 'F' */
+  if (shape == 1) { e[n++] = 'F'; return put_addr(e, n, (int)h_below(13)); }     /* EOF inside the sender (possibly right after 'F') */
+  n = put_rec(e, n, shape == 6 ? wrongF : 'F', shape == 8 ? 1003 + (int)h_below(3) : (int)h_below(12));
+  if (shape == 2) return n;                                                      /* EOF at the sender's record boundary */
+  for (int r = 0; r < nrcpt; r++)
+    n = put_rec(e, n, (shape == 7 && r == wrong_at) ? wrongT : 'T', (shape == 9 && r == nrcpt - 1) ? 1003 + (int)h_below(3) : (int)h_below(12));
+  if (shape == 3) { e[n++] = 'T'; return put_addr(e, n, 1 + (int)h_below(12)); } /* EOF inside a recipient address */
+  if (shape == 4) { e[n++] = 'T'; return n; }                                    /* EOF right after a record letter */
+  if (shape == 5) return n;                                                      /* all records, terminator missing */
+  e[n++] = 0;
+  if (shape == 10 && h_below(2)) { e[n++] = 'T'; e[n++] = 'x'; }                 /* bytes after the terminator are ignored */
+  return n;
+}
+
+/* every call index x every fault kind on one input; the fault-free run first, with all its crash points */
+static const int ferrs[] = { EIO, ENOSPC, -1, EINTR };
+static long sweep1(const unsigned char *msg, size_t mn, const unsigned char *env, size_t en, int chunk, long id, int shard, int nshards) {
+  long nc = ncalls_of(msg, mn, env, en, chunk, 0, 0);
+  if ((int)(id++ % nshards) == shard) one_f(msg, mn, env, en, chunk, 0, 0, 1);
+  for (long fc = 1; fc <= nc; fc++) {
+    if (!sampled(fc, nc)) continue;
+    for (int fe = 0; fe < 4; fe++, id++) {
+      if ((int)(id % nshards) != shard) continue;
+      flt f = { (int)fc, ferrs[fe] };
+      one_f(msg, mn, env, en, chunk, &f, 1, fc);
+    }
+  }
+  return id;
+}
+
+/* every second fault after every first fault (the singly-faulted runs are cases of sweep1 / section C) */
+static long sweep2(const unsigned char *msg, size_t mn, const unsigned char *env, size_t en, int chunk, long id, int shard, int nshards) {
+  long nc = ncalls_of(msg, mn, env, en, chunk, 0, 0);
+  for (long fc1 = 1; fc1 <= nc; fc1++) {
+    if (!sampled(fc1, nc)) continue;
+    for (int fe1 = 0; fe1 < 4; fe1++) {
+      flt f[2] = { { (int)fc1, ferrs[fe1] }, { 0, 0 } };
+      long nc1 = ncalls_of(msg, mn, env, en, chunk, f, 1);
+      for (long fc2 = fc1 + 1; fc2 <= nc1; fc2++) {
+        if (!sampled(fc2, nc1)) continue;
+        for (int fe2 = 0; fe2 < 4; fe2++, id++) {
+          if ((int)(id % nshards) != shard) continue;
+          f[1].call = (int)fc2; f[1].err = ferrs[fe2];
+          one_f(msg, mn, env, en, chunk, f, 2, fc2);
+        }
+      }
+    }
+  }
+  return id;
+}
+
+/* the inputs of the malformed-input sweeps: shape x variant (0: tiny message, few recipients, unchunked;
+ * 1: 300-byte message, 30..49 recipients (the envelope file is written in several pieces), reads of 100;
+ * 2: tiny message, reads of 1 byte (255 for the over-long addresses)) */
+static void gen_variant(uint64_t seed, int shape, int variant, unsigned char *msg, size_t *mn, unsigned char *env, size_t *en, int *chunk) {
+  h_seed(seed * 131 + (uint64_t)(shape * 3 + variant));
+  *mn = variant == 1 ? 300 : h_below(12);
+  for (size_t i = 0; i < *mn; i++) msg[i] = "ab\n .XYZ"[h_below(8)];
+  int nrcpt = variant == 1 ? 30 + (int)h_below(20) : 1 + (int)h_below(variant == 0 ? 3 : 2);
+  *en = gen_abnormal(env, shape, nrcpt);
+  *chunk = variant == 0 ? 0 : variant == 1 ? 100 : (shape == 8 || shape == 9) ? 255 : 1;
+}
+
 int main(int argc, char **argv) {
   h_init_out();
   SIM_REGISTER(qq); sim_globals_snapshot();
@@ -137,10 +248,13 @@ int main(int argc, char **argv) {
   if (argc > 1 && !strcmp(argv[1], "-")) {
     static char line[400000], mh[200000], eh[40000];
     while (fgets(line, sizeof line, stdin)) {
-      int chunk, fc, fe;
-      if (sscanf(line, "%d %s %s %d %d", &chunk, mh, eh, &fc, &fe) != 5) continue;
+      int chunk, fc, fe, pos = 0;
+      if (sscanf(line, "%d %s %s %d %d%n", &chunk, mh, eh, &fc, &fe, &pos) != 5) continue;
       size_t mn = unhex(mh, msg), en = unhex(eh, env);
-      one(msg, mn, env, en, chunk, fc, fe);
+      flt f[MAXF]; int nf = 1; f[0].call = fc; f[0].err = fe;
+      { int c2, e2, adv; const char *q = line + pos;
+        while (nf < MAXF && sscanf(q, "%d %d%n", &c2, &e2, &adv) == 2) { f[nf].call = c2; f[nf].err = e2; nf++; q += adv; } }
+      if (nf == 1) one(msg, mn, env, en, chunk, fc, fe); else one_f(msg, mn, env, en, chunk, f, nf, 1);
     }
     fflush(h_out); return 0;
   }
@@ -150,7 +264,6 @@ int main(int argc, char **argv) {
   long id = 0;
   static const int msizes[] = { 0, 1, 255, 256, 257, 1000, 2047, 2048, 2049, 8191, 8192, 8193 };
   static const int chunks[] = { 0, 1, 700 };
-  static const int ferrs[] = { EIO, ENOSPC, -1, EINTR };
   h_seed(seed);
   /* (A) clean runs: message sizes x envelope shapes x chunkings */
   for (unsigned ms = 0; ms < sizeof msizes / sizeof msizes[0]; ms++)
@@ -200,6 +313,50 @@ int main(int argc, char **argv) {
     int chunk = (int[]){0, 1, 3, 255, 256, 2048}[h_below(6)];
     int fc = h_below(3) == 0 ? 1 + (int)h_below(40) : 0;
     one(msg, mn, env, en, chunk, fc, ferrs[h_below(4)]);
+  }
+  /* (E) the fault sweep of (C) on malformed / truncated inputs: every call index (including the calls made
+   *     inside cleanup()) x every fault kind, for every shape x variant */
+  for (int shape = 0; shape < NSHAPES; shape++)
+    for (int variant = 0; variant < 3; variant++) {
+      size_t mn, en; int chunk;
+      gen_variant(seed, shape, variant, msg, &mn, env, &en, &chunk);
+      id = sweep1(msg, mn, env, en, chunk, id, shard, nshards);
+    }
+  /* (F) pairs of faults: on the first two base cases of (C) and on the small malformed inputs
+   *     (thorough: also the 300-byte / many-recipient variants) */
+  for (int base = 0; base < 2; base++) {
+    h_seed(seed * 31 + base);
+    size_t mn = base == 0 ? 10 : 300; for (size_t i = 0; i < mn; i++) msg[i] = "ab\n"[h_below(3)];
+    size_t en = gen_env(env, 2, -2, -2, 0, -1, 0);
+    id = sweep2(msg, mn, env, en, base == 1 ? 100 : 0, id, shard, nshards);
+  }
+  for (int shape = 0; shape < NSHAPES; shape++)
+    for (int variant = 0; variant < (nrandom >= 1000 ? 2 : 1); variant++) {
+      size_t mn, en; int chunk;
+      gen_variant(seed, shape, variant, msg, &mn, env, &en, &chunk);
+      id = sweep2(msg, mn, env, en, chunk, id, shard, nshards);
+    }
+  /* (G) random inputs (half of them malformed) with a random chain of 1..3 faults, each placed in the part of
+   *     the trace that the previous ones leave (half of the time among its last 8 calls) */
+  for (int r = 0; r < nrandom / 2; r++, id++) {
+    if ((int)(id % nshards) != shard) continue;
+    h_seed(seed * 7777777ull + r);
+    size_t mn = h_below(8) == 0 ? h_below(5000) : h_below(700); for (size_t i = 0; i < mn; i++) msg[i] = (unsigned char)h_below(256);
+    size_t en;
+    if (h_below(2)) en = gen_abnormal(env, (int)h_below(NSHAPES), (int)h_below(6));
+    else { int k = h_below(10); do bad_letter = (int)h_below(256); while (bad_letter == 'F' || bad_letter == 'T' || bad_letter == 0);
+           en = gen_env(env, (int)h_below(6), k == 0 ? (int)h_below(4) - 1 : -2, k == 1 ? (int)h_below(4) - 1 : -2, 1001 + (int)h_below(4),
+                        k == 2 ? (int)h_below(40) : -1, k == 3); bad_letter = 'X'; }
+    int chunk = (int[]){0, 1, 3, 100, 255, 256, 2048}[h_below(7)];
+    flt f[3]; int nf = 0, want = 1 + (int)h_below(3); long last = 0;
+    while (nf < want) {
+      long nc = ncalls_of(msg, mn, env, en, chunk, f, nf);
+      if (nc <= last) break;
+      long lo = last + 1; if (h_below(2) && nc - 7 > lo) lo = nc - 7;
+      f[nf].call = (int)(lo + h_below((uint32_t)(nc - lo + 1))); f[nf].err = ferrs[h_below(4)];
+      last = f[nf].call; nf++;
+    }
+    one_f(msg, mn, env, en, chunk, f, nf, 1);
   }
   fflush(h_out);
   return 0;
